@@ -244,6 +244,32 @@ def eval_forms(args):
     return dict(args=args, bad=bad) if bad else None
 
 
+def eval_defined_keyword():
+    """XSD 1.1 attribute wildcards whose notQName has ##defined: the keyword only EXCLUDES names (global attributes of the wildcard's own schema document); a name that the
+    namespace constraint or an explicit notQName entry excludes stays excluded whether or not it has a global declaration somewhere (an imported namespace, xml:lang)"""
+    import xmlschema, tempfile, shutil, os
+    d = tempfile.mkdtemp(prefix='verif_c03_'); bad = []; n = 0
+    try:
+        open(os.path.join(d, 'b.xsd'), 'w').write('<xs:schema xmlns:xs="http://www.w3.org/2001/XMLSchema" targetNamespace="urn:b"><xs:attribute name="code" type="xs:int"/><xs:attribute name="flag" type="xs:boolean"/></xs:schema>')
+        open(os.path.join(d, 'm.xsd'), 'w').write('''<xs:schema xmlns:xs="http://www.w3.org/2001/XMLSchema" targetNamespace="urn:t" xmlns:t="urn:t" xmlns:b="urn:b">
+ <xs:import namespace="urn:b" schemaLocation="b.xsd"/><xs:import namespace="http://www.w3.org/XML/1998/namespace"/><xs:attribute name="own" type="xs:int"/>
+ <xs:element name="r1"><xs:complexType><xs:anyAttribute namespace="##targetNamespace urn:c" notQName="##defined" processContents="lax"/></xs:complexType></xs:element>
+ <xs:element name="r2"><xs:complexType><xs:anyAttribute namespace="##any" notQName="##defined b:flag" processContents="lax"/></xs:complexType></xs:element>
+ <xs:element name="r3"><xs:complexType><xs:anyAttribute notNamespace="urn:b http://www.w3.org/XML/1998/namespace" notQName="##defined" processContents="lax"/></xs:complexType></xs:element>
+</xs:schema>''')
+        s = xmlschema.XMLSchema11(os.path.join(d, 'm.xsd'))
+        NSD = 'xmlns:t="urn:t" xmlns:b="urn:b" xmlns:c="urn:c"'
+        for tag, attr, exp in (('r1', 'b:code="1"', False), ('r1', 'xml:lang="en"', False), ('r1', 'c:x="1"', True), ('r1', 't:own="1"', False), ('r1', 't:other="1"', True),
+                               ('r2', 'b:flag="true"', False), ('r2', 'b:code="1"', True), ('r2', 't:own="1"', False), ('r2', 'c:x="1"', True),
+                               ('r3', 'b:code="1"', False), ('r3', 'xml:lang="en"', False), ('r3', 'c:x="1"', True), ('r3', 't:own="1"', False)):
+            n += 1
+            try: got = s.is_valid(f'<t:{tag} {NSD} {attr}/>')
+            except Exception as e: got = 'raised ' + type(e).__name__
+            if got != exp: bad.append(dict(case=dict(defined_keyword=[tag, attr]), observed=dict(valid=got), required=dict(valid=exp)))
+    finally: shutil.rmtree(d, ignore_errors=True)
+    return result('C03.defined_keyword_keeps_the_other_constraints', '3 XSD 1.1 wildcards with notQName="##defined" (namespace list, explicit name, notNamespace) x attributes with and without global declarations in the own / an imported / the XML namespace', n, bad, exhaustive=True)
+
+
 def run(tier, seed, open_findings):
     allc = list(configs())
     sel, exhaustive = part(allc, tier, seed, 16)
@@ -268,12 +294,14 @@ def run(tier, seed, open_findings):
     fres = [eval_forms(j) for j in fjobs]
     ffail = [dict(case=dict(forms=list(r['args'])), observed=[list(b) for b in r['bad']], required='the attribute is in the target namespace iff its form (explicit, else the schema default) is qualified') for r in fres if r]
     extra3 = result('C03.attribute_forms', f'{len(fjobs)} (attributeFormDefault, form, placement, class) x the qualified and the unqualified spelling of a required local attribute', len(fjobs) * 2, ffail, exhaustive=True)
-    return [extra3, extra2, extra, result('C03.attribute_sets', f'{len(sel)} of {len(allc)} (declarations, wildcard, class) configurations x subsets <= 3 of a 7-name pool x 3 values', cases, failures,
+    return [eval_defined_keyword(), extra3, extra2, extra, result('C03.attribute_sets', f'{len(sel)} of {len(allc)} (declarations, wildcard, class) configurations x subsets <= 3 of a 7-name pool x 3 values', cases, failures,
                    exhaustive=exhaustive, samples=[dict(decls={'a': USES[2], 'b': USES[4]}, wildcard=WCS[5], attrs={'a': '7'})],
                    reported={'prohibited-and-wildcard-admits (outside the deciding scope)': exc}, distinct=cases)][::-1]
 
 
 def replay(check_name, case):
+    if case.get('defined_keyword'):
+        r = eval_defined_keyword(); mine = [f for f in r['failures'] if f['case'] == case]; return dict(ok=not mine, observed=mine[:1], required='see case')
     if 'forms' in case:
         r = eval_forms(tuple(case['forms'])); return dict(ok=not r, observed=r and r['bad'], required='form decides the namespace of the attribute')
     if 'two_groups' in case:
